@@ -142,6 +142,9 @@ def check_output(raw, cfg, problems):
 
 def reconfigure(g, cfg):
     """Bring a live builder to formatter configuration `cfg` through the public API."""
+    if cfg.get("_via_set_formatter"):
+        from gscrib.formatters import DefaultFormatter
+        g.set_formatter(DefaultFormatter())
     g.format.set_decimal_places(cfg["decimal_places"])
     g.format.set_comment_symbols(cfg["comment_symbols"])
     g.format.set_line_endings(cfg["line_endings"])
@@ -153,7 +156,7 @@ def run_one(cfg, call, v=None, pre=None):
     """`pre` = (earlier configuration, warm-up value): the builder is created with the earlier configuration, the same
     command is issued once, and only then is the builder re-configured at run time to `cfg` (non-initial formatter state)."""
     if pre is None:
-        st = Sut(dict(cfg))
+        st = Sut({k: v for k, v in cfg.items() if not k.startswith("_")})
     else:
         st = Sut(dict(pre[0]))
         try:
@@ -276,6 +279,9 @@ def reconf_pairs(tier):
     pairs.append(({"decimal_places": 4, "comment_symbols": ";", "line_endings": "\\r\\n"}, {**base, "decimal_places": 4}))
     pairs.append(({**base, "decimal_places": 4}, {**base, "decimal_places": 4, "x_axis": "A"}))
     pairs.append(({**base, "decimal_places": 4, "x_axis": "A"}, {**base, "decimal_places": 6, "x_axis": "U"}))
+    # the formatter object itself is replaced on the live builder (set_formatter), then configured
+    pairs.append(({**base, "decimal_places": 4}, {"decimal_places": 4, "comment_symbols": ";", "line_endings": "\\r\\n", "_via_set_formatter": True}))
+    pairs.append(({"decimal_places": 4, "comment_symbols": ";", "line_endings": "\\r\\n"}, {**base, "decimal_places": 2, "comment_symbols": "(", "_via_set_formatter": True}))
     return pairs
 
 
